@@ -96,6 +96,8 @@ def ev_call(ex, n, st, spec, b):
             return E(n.args[0]).off
         if name == "seq_eq":
             return str_eq(as_str(E(n.args[0])), as_str(E(n.args[1])))
+        if name == "nprinted":
+            return st.env.get("$nprinted", z3.IntVal(0))
         if name == "cg":
             return st.env[f"{n.args[0].value}::{n.args[1].value}"]
         if name == "code":
